@@ -49,6 +49,10 @@ func ServeConn(ctx context.Context, cn net.Conn, handler Handler) error {
 	}
 
 	err := c.serve()
+	// serve has cancelled every in-flight request. Wait for their handlers
+	// to return, so that Stop does not run concurrently with them (and
+	// cannot miss what they are about to set up).
+	c.handlers.Wait()
 	return handler.Stop(err)
 }
 
@@ -62,6 +66,8 @@ type conn struct {
 	once   sync.Once
 	closed chan struct{}
 	err    error // terminal error for the conn
+
+	handlers sync.WaitGroup // handler goroutines in flight
 }
 
 // activeRequest includes information about the active request.
@@ -159,7 +165,9 @@ func (c *conn) serve() error {
 					cancel:  cancel,
 				}
 
+				c.handlers.Add(1)
 				go func(ctx context.Context, req *Fcall) {
+					defer c.handlers.Done()
 					var resp *Fcall
 					msg, err := c.handler.Handle(ctx, req.Message)
 					if err != nil {
